@@ -89,7 +89,13 @@ impl<T> IpMatcher<T> {
         if let Some(remote_addr) = request.remote_addr.as_ref() {
             for (ip_cidr, matcher) in &self.matchers {
                 if ip_cidr.match_ip(remote_addr) {
-                    routes.extend(matcher.match_request(request));
+                    // A route with several ip constraints is stored under each of them, it must
+                    // be returned only once even when several of them match
+                    for route in matcher.match_request(request) {
+                        if !routes.iter().any(|existing| existing.id() == route.id()) {
+                            routes.push(route);
+                        }
+                    }
                 }
             }
         }
